@@ -65,6 +65,9 @@ func (w *World) callers() *callerIndex {
 					}
 					switch v := (*op).(type) {
 					case *ssa.Function:
+						if mc, isMC := ins.(*ssa.MakeClosure); isMC && mc.Fn == ssa.Value(v) {
+							break // the closure's own function: judged below by the uses of the closure value
+						}
 						if ssa.Value(v) != calleeVal {
 							ci.escaped[v] = true
 						}
